@@ -132,6 +132,102 @@ pub unsafe fn set_external_session_globals(ptr: *const std::ffi::c_void) {
     EXTERNAL_SESSION_GLOBALS.store(ptr as *mut Mutex<SessionGlobals>, Ordering::Release);
 }
 
+/// Verification hooks for the session globals (compiled only with `--cfg mimium_verif`; inert
+/// unless a harness turns them on).  Events are appended while the session lock is held, so
+/// their sequence numbers are the order in which the lock was granted.
+#[cfg(mimium_verif)]
+pub mod verif {
+    use std::cell::Cell;
+    use std::sync::Mutex;
+    use std::sync::atomic::{AtomicBool, AtomicU64, Ordering};
+
+    /// One interner operation: `op` is "intern" (id, digest of the string, fresh) or
+    /// "resolve" (id, digest of the string returned).
+    #[derive(Debug, Clone)]
+    pub struct SessEv {
+        pub seq: u64,
+        pub thread: u64,
+        pub op: &'static str,
+        pub id: u64,
+        pub digest: u64,
+        pub fresh: bool,
+    }
+    static LOG_ON: AtomicBool = AtomicBool::new(false);
+    static SEQ: AtomicU64 = AtomicU64::new(0);
+    static LOG: Mutex<Vec<SessEv>> = Mutex::new(Vec::new());
+    /// 0 = no perturbation; otherwise threads yield before some acquisitions.
+    static PERTURB: AtomicU64 = AtomicU64::new(0);
+    thread_local! {
+        static DEPTH: Cell<u32> = const { Cell::new(0) };
+        static TAG: Cell<u64> = const { Cell::new(0) };
+        static RNG: Cell<u64> = const { Cell::new(0) };
+    }
+    pub fn set_thread_tag(tag: u64) {
+        TAG.with(|t| t.set(tag));
+        RNG.with(|r| r.set(0));
+    }
+    pub fn set_perturbation(seed: u64) {
+        PERTURB.store(seed, Ordering::SeqCst);
+    }
+    pub fn start_log() {
+        LOG.lock().unwrap().clear();
+        LOG_ON.store(true, Ordering::SeqCst);
+    }
+    pub fn take_log() -> Vec<SessEv> {
+        LOG_ON.store(false, Ordering::SeqCst);
+        std::mem::take(&mut *LOG.lock().unwrap())
+    }
+    pub fn digest(s: &str) -> u64 {
+        s.bytes().fold(0xcbf29ce484222325u64, |h, b| {
+            (h ^ b as u64).wrapping_mul(0x100000001b3)
+        })
+    }
+    /// Called with the session lock held.
+    pub(super) fn emit(op: &'static str, id: u64, digest: u64, fresh: bool) {
+        if LOG_ON.load(Ordering::Relaxed) {
+            let seq = SEQ.fetch_add(1, Ordering::SeqCst);
+            let thread = TAG.with(|t| t.get());
+            LOG.lock().unwrap().push(SessEv { seq, thread, op, id, digest, fresh });
+        }
+    }
+    /// Before acquisition: refuse a nested acquisition (the lock is not reentrant: it would
+    /// block for ever) and, when perturbation is on, sometimes let other threads go first.
+    pub(super) fn before_acquire() {
+        if DEPTH.with(|d| d.get()) > 0 {
+            panic!("mimium_verif: nested acquisition of the session globals");
+        }
+        let seed = PERTURB.load(Ordering::Relaxed);
+        if seed != 0 {
+            let x = RNG.with(|r| {
+                let mut x = r.get();
+                if x == 0 {
+                    x = seed ^ (TAG.with(|t| t.get()).wrapping_mul(0x9e3779b97f4a7c15)) | 1;
+                }
+                x ^= x << 13;
+                x ^= x >> 7;
+                x ^= x << 17;
+                r.set(x);
+                x
+            });
+            if x % 61 == 0 {
+                std::thread::yield_now();
+            }
+        }
+    }
+    pub(super) struct DepthGuard;
+    impl DepthGuard {
+        pub(super) fn enter() -> Self {
+            DEPTH.with(|d| d.set(d.get() + 1));
+            DepthGuard
+        }
+    }
+    impl Drop for DepthGuard {
+        fn drop(&mut self) {
+            DEPTH.with(|d| d.set(d.get() - 1));
+        }
+    }
+}
+
 pub fn with_session_globals<R, F>(f: F) -> R
 where
     F: FnOnce(&mut SessionGlobals) -> R,
@@ -143,7 +239,11 @@ where
     } else {
         &SESSION_GLOBALS
     };
+    #[cfg(mimium_verif)]
+    verif::before_acquire();
     if let Ok(mut guard) = mutex.lock() {
+        #[cfg(mimium_verif)]
+        let _depth = verif::DepthGuard::enter();
         f(&mut guard)
     } else {
         panic!("Failed to acquire lock on SESSION_GLOBALS");
@@ -161,7 +261,12 @@ pub trait ToSymbol {
 impl<T: AsRef<str>> ToSymbol for T {
     fn to_symbol(&self) -> Symbol {
         Symbol(with_session_globals(|session_globals| {
-            session_globals.symbol_interner.get_or_intern(self.as_ref())
+            #[cfg(mimium_verif)]
+            let fresh = session_globals.symbol_interner.get(self.as_ref()).is_none();
+            let id = session_globals.symbol_interner.get_or_intern(self.as_ref());
+            #[cfg(mimium_verif)]
+            verif::emit("intern", id as u64, verif::digest(self.as_ref()), fresh);
+            id
         }))
     }
 }
@@ -181,6 +286,10 @@ impl<'a> From<Symbol> for Cow<'a, str> {
 impl Symbol {
     pub fn as_str(&self) -> &str {
         with_session_globals(|session_globals| unsafe {
+            #[cfg(mimium_verif)]
+            if let Some(s) = session_globals.symbol_interner.resolve(self.0) {
+                verif::emit("resolve", self.0 as u64, verif::digest(s), false);
+            }
             // This transmute is needed to convince the borrow checker. Since
             // the session_global should exist until the end of the session,
             // this &str should live sufficiently long.
